@@ -114,7 +114,7 @@ func verifPayload(symbolic bool) Object {
 		if !symbolic {
 			return Name("A#B")
 		}
-		return Name(verifrt.String("payname", 3))
+		return Name(verifrt.String("payname", 1))
 	}
 }
 
